@@ -500,7 +500,7 @@ func (e *Exec) Assert(name string, c *Term) {
 func fullName(fn *ssa.Function) string { return fn.String() }
 
 // interpretable library packages (pure Go, loaded with syntax)
-var libPkgs = map[string]bool{"slices": true, "cmp": true}
+var libPkgs = map[string]bool{"slices": true, "cmp": true, "bytes": true}
 
 func inRepo(fn *ssa.Function) bool {
 	if isLib(fn) {
@@ -1547,6 +1547,10 @@ func (e *Exec) builtin(fr *frame, name string, c *ssa.CallCommon, args []Value) 
 		}
 		e.unsupported("clear")
 		return nil
+	case "recover":
+		// a panic ends the path as an obligation, so no deferred function ever runs
+		// with a panic in flight: recover() returns nil
+		return &IfaceV{}
 	case "print", "println":
 		return nil
 	}
@@ -1609,6 +1613,39 @@ func (e *Exec) copyBuiltin(dstV, srcV Value) Value {
 	return n
 }
 
+// appendSym: append of integer elements when a length, capacity or offset is
+// symbolic.  In place when the capacity suffices (a fork), else a fresh backing
+// store of exactly the needed size (Go leaves the new capacity open; code that
+// depends on it is outside the model).
+func (e *Exec) appendSym(dst, src *SliceV, srcStr *StringV, k *Term, ew int) Value {
+	var sarr, soff *Term
+	if src != nil {
+		if src.obj == nil {
+			return dst
+		}
+		sarr, soff = e.sliceBytes(src).arr, src.off
+	} else {
+		sarr, _ = e.stringArr(srcStr)
+		soff = e.c64(0)
+	}
+	if k.op == OpConst && k.val == 0 {
+		return dst
+	}
+	newLen := e.st.Bin(OpAdd, dst.len, k)
+	e.Assume(e.st.Cmp(OpUle, newLen, e.c64(1<<20)), "append: result of at most 2^20 elements")
+	if dst.obj != nil && e.Branch(e.st.Cmp(OpUle, newLen, dst.cap)) {
+		db := e.sliceBytes(dst)
+		db.arr = e.st.ArrCopy(db.arr, sarr, e.st.Bin(OpAdd, dst.off, dst.len), soff, k)
+		return &SliceV{obj: dst.obj, path: dst.path, off: dst.off, len: newLen, cap: dst.cap}
+	}
+	arr := e.st.ConstArr(ArrSort(64, ew), 0)
+	if dst.obj != nil {
+		arr = e.st.ArrCopy(arr, e.sliceBytes(dst).arr, e.c64(0), dst.off, dst.len)
+	}
+	arr = e.st.ArrCopy(arr, sarr, dst.len, soff, k)
+	return &SliceV{obj: e.newObj(&BytesV{arr: arr, n: -1}, "append"), off: e.c64(0), len: newLen, cap: newLen}
+}
+
 // appendBuiltin: append(s, t...) with concrete lengths and capacities (Go's
 // aliasing rule: in place when the capacity suffices, else a fresh array of
 // exactly the needed size).
@@ -1626,6 +1663,10 @@ func (e *Exec) appendBuiltin(fr *frame, c *ssa.CallCommon, args []Value) Value {
 		_, srcLen = e.stringArr(x)
 	default:
 		e.unsupported("append source")
+	}
+	if isBytes && (dst.len.op != OpConst || dst.cap.op != OpConst || srcLen.op != OpConst || dst.off.op != OpConst) {
+		// integer elements, some length symbolic: block-copy terms instead of element-wise stores
+		return e.appendSym(dst, src, srcStr, srcLen, ew)
 	}
 	if dst.len.op != OpConst || dst.cap.op != OpConst {
 		// small symbolic lengths (e.g. make([]T, len(m)) for a bounded map): split by value
